@@ -77,6 +77,9 @@ func VerifC05Listeners() {
 	if err != nil {
 		return
 	}
+	// the plugins consulted for user connections (through the resource controller) are the
+	// registered ones: one manager, not a second empty one
+	zzverif.Assert(svr.rc.PluginManager == svr.pluginManager && svr.pluginManager != nil, "C15.listeners.proxies-consult-the-registered-plugins")
 	// ports are probed where the proxies will bind them, per network
 	tn, ta := svr.rc.TCPPortManager.ZZProbe()
 	un, ua := svr.rc.UDPPortManager.ZZProbe()
